@@ -2,6 +2,7 @@ pub mod difficulty;
 pub mod filtersync;
 pub mod hostile;
 pub mod peersync;
+pub mod query;
 pub mod sampling;
 
 use std::collections::HashMap;
@@ -13,6 +14,7 @@ pub fn run(driver: &str, kv: &HashMap<String, String>) -> i32 {
         "sampling" => sampling::run(kv),
         "hostile" => hostile::run(kv),
         "difficulty" => difficulty::run(kv),
+        "query" => query::run(kv),
         "mine-genesis" => mine_genesis(),
         "selftest-forged" => selftest_forged(),
         _ => {
